@@ -177,7 +177,11 @@ func RunBatch(p Prop, tier string, verifSeed uint64, batch int, known *KnownFind
 	}
 	seed := BatchSeed(verifSeed, p.ID(), batch)
 	_ = flag.Set("rapid.seed", strconv.FormatUint(seed, 10))
-	_ = flag.Set("rapid.checks", strconv.Itoa(p.ChecksPerBatch(tier)))
+	checks := p.ChecksPerBatch(tier)
+	if n, err := strconv.Atoi(os.Getenv("VERIF_CHECKS")); err == nil && n > 0 {
+		checks = n // e.g. the slow -race run of C13
+	}
+	_ = flag.Set("rapid.checks", strconv.Itoa(checks))
 	if d := os.Getenv("VERIF_SHRINKTIME"); d != "" {
 		_ = flag.Set("rapid.shrinktime", d)
 	} else {
